@@ -253,15 +253,37 @@ ExecCondJmp(i, D) ==
 (***************************************************************************)
 HelperArgs == <<reg[1], reg[2], reg[3], reg[4], reg[5]>>
 
+\* What a helper did, as the environment reports it (hr): the value it returned, what it left in
+\* r1-r5, and the bytes it wrote (hr.wr: a sequence of [addr, bytes]; helpers receive pointers and
+\* may write through them - memfrob does).  Writes that lie inside one region of the VM's memory
+\* are applied in order and are visible to every later load; a helper that writes anywhere else is
+\* outside the model (the run's outcome is then not claimed).
+HelperWritesOK(wr) == \A k \in 1..Len(wr) : Len(wr[k].bytes) > 0 /\ Allowed(wr[k].addr, Len(wr[k].bytes))
+ApplyWrite(m, w) ==
+  LET r   == RegionOf(w.addr, Len(w.bytes))
+      off == OffIn(r, w.addr, Len(w.bytes))
+  IN [m EXCEPT ![r] = [k \in 1..Len(@) |-> IF k > off /\ k <= off + Len(w.bytes) THEN w.bytes[k - off] ELSE @[k]]]
+RECURSIVE ApplyWrites(_, _, _)
+ApplyWrites(m, wr, k) == IF k > Len(wr) THEN m ELSE ApplyWrites(ApplyWrite(m, wr[k]), wr, k + 1)
+StackOffsWritten(wr) ==
+  UNION { LET n == Len(wr[k].bytes) IN
+          IF OffIn(R_STACK, wr[k].addr, n) >= 0 THEN (OffIn(R_STACK, wr[k].addr, n))..(OffIn(R_STACK, wr[k].addr, n) + n - 1) ELSE {}
+          : k \in 1..Len(wr) }
+
 ExecCallHelper(i, hr) ==
   IF i.imm \notin env.helpers THEN Halt(StErr("nohelper"))
   ELSE /\ hlog' = Append(hlog, [id |-> i.imm, args |-> HelperArgs])
        /\ reg' = [r \in 0..10 |-> IF r = 0 THEN hr.ret
                                    ELSE IF r \in 1..5 THEN hr.clob[r] ELSE reg[r]]
        /\ rt'  = [r \in 0..10 |-> IF r = 0 THEN "c" ELSE IF r \in 1..5 THEN "u" ELSE rt[r]]
-       /\ defd' = (defd /\ \A r \in 1..5 : rt[r] = "c")
+       /\ IF HelperWritesOK(hr.wr)
+          THEN /\ mem' = ApplyWrites(mem, hr.wr, 1)
+               /\ sw' = sw \cup StackOffsWritten(hr.wr)
+               /\ defd' = (defd /\ \A r \in 1..5 : rt[r] = "c")
+          ELSE /\ defd' = FALSE
+               /\ UNCHANGED <<mem, sw>>
        /\ Advance(1)
-       /\ UNCHANGED <<env, mem, sw, frames, status>>
+       /\ UNCHANGED <<env, frames, status>>
 
 (***************************************************************************)
 (* Local calls and returns (C07).                                          *)
